@@ -326,6 +326,7 @@ func TestC15(t *testing.T) {
 	badEnc := []string{"raw-garbage", "garbage-der", "truncated", "bad-base64", "wrong-pem-type"}
 	badFlags := []string{"-includeNames=e_no_such_lint", "-excludeNames=e_ca_country_name_missing,bogus", "-includeSources=NotASource", "-excludeSources=RFC5280,Nope",
 		"-nameFilter=(", "-profile=no_such_profile", "-format=xml", "-config=/nonexistent/verif.toml"}
+	cliConfigMatrix(t, rec, cli, stats.Scale(2, 6), "")
 	rapidRun(t, "invocations", perShard(stats.Scale(420, 40000)), func(rt *rapid.T) {
 		dir, err := os.MkdirTemp("", "verif-c15-")
 		if err != nil {
